@@ -13,7 +13,7 @@ mki_/mks_/mkd_/cvi_/cvs_/cvd_/hex_/oct_ and Values.from_repr):
                x (low 3 bytes pattern) x exponents x signs
   near-int     every n in -32770..32770 (and powers of two up to 2^56): n, n+-1/4, n+-1/2, n+-3/4
                and the representable neighbours of each, as single and double: CINT FIX INT
-  single-full  (thorough) all 2^23 mantissas at 10 exponents x 2 signs: CINT FIX INT
+  single-full  (thorough) all 2^23 mantissas at 8 exponents x 2 signs: CINT FIX INT
 
 Oracle: models/mbf.py - exact integer arithmetic on value*2^184.
 """
@@ -34,9 +34,9 @@ LEVEL_TEXT = (
     'MKI$/CVI, integral floats), every single and double built from a fixed alphabet of rounding-critical '
     'mantissas (1243 / 2277 patterns) at every one of the 256 exponent bytes and both signs, every value at or '
     'next to an integer / half-integer in -32770..32770, the double->single rounding over all 256 values of the '
-    'first dropped byte, and (thorough) all 2^23 single mantissas at 10 exponents. Every outcome is compared with '
+    'first dropped byte, and (thorough) all 2^23 single mantissas at 8 exponents. Every outcome is compared with '
     'an exact integer-arithmetic reference written from the statement.')
-LEVEL_NOTE = ('Floats outside the mantissa alphabets are covered only by the full-mantissa leg (singles, 10 '
+LEVEL_NOTE = ('Floats outside the mantissa alphabets are covered only by the full-mantissa leg (singles, 8 '
               'exponents); trusted base: models/mbf.py decoding of MBF bytes and Python int arithmetic.')
 TECHNIQUE = ('bounded exhaustive enumeration of integer / single / double bit patterns on the real values.* '
              'conversion functions against an exact integer reference model')
@@ -439,7 +439,7 @@ def work_near_int(shard):
     return part
 
 
-FULL_EXPS = (0x80, 0x81, 0x82, 0x88, 0x89, 0x8f, 0x90, 0x91, 0x97, 0x98)
+FULL_EXPS = (0x80, 0x81, 0x82, 0x88, 0x90, 0x91, 0x97, 0x98)
 
 
 def work_single_full(shard):
